@@ -39,7 +39,8 @@ def base_record(opts):
     if o["roots"] >= 2:
         o["schema_def"], o["mutation"] = True, True
     suffix = TEXT_SUFFIXES[o["text"]]           # appended to EVERY description and deprecation reason
-    d = (lambda s: s + suffix) if o["desc"] else (lambda s: None)
+    # (the last text also gets an indented FIRST line: no block string can carry that)
+    d = (lambda s: ("  " if o["text"] == 9 else "") + s + suffix) if o["desc"] else (lambda s: None)
     dep = (lambda s: s + suffix) if o["dep"] else (lambda s: None)
     qname = "RootQ" if o["schema_def"] else "Query"
     mname = "RootM" if o["schema_def"] else "Mutation"
@@ -130,7 +131,7 @@ def base_record(opts):
     return rec
 
 
-TEXT_SUFFIXES = ("", ' "q" \\ b', "\nsecond line", " \u00e9\u2713", " \U0001F600", " tail\\", ' quote"', "\tx", " \u2028\u0085 seps")
+TEXT_SUFFIXES = ("", ' "q" \\ b', "\nsecond line", " \u00e9\u2713", " \U0001F600", " tail\\", ' quote"', "\tx", " \u2028\u0085 seps", "\n  all later lines indented\n   too", "\n   \nafter a line of blanks\n\t\nand one of tabs")
 
 
 def quote(text):
@@ -156,7 +157,10 @@ def _desc(text, indent=""):
     if text is None:
         return ""
     if "\n" in text and '"' not in text and "\\" not in text:
-        return '%s"""\n%s%s\n%s"""\n' % (indent, indent, text.replace("\n", "\n" + indent), indent)
+        raw = "\n%s%s\n%s" % (indent, text.replace("\n", "\n" + indent), indent)
+        from oracles.ref_lexer import block_string_value
+        if block_string_value(raw) == text:            # BlockStringValue() of the specification gives the text back
+            return '%s"""%s"""\n' % (indent, raw)
     return '%s%s\n' % (indent, quote(text))
 
 
